@@ -506,6 +506,12 @@ class Exec:
                 if any(f.where == 'raw_write' for f in err_fired):
                     self.count('fault_landed_in_document')
                 return
+            if isinstance(raised, UnicodeEncodeError) and sink.raw is not None \
+                    and norm_encoding(self.knobs['wrapper_encoding']) != 'utf-8':
+                # the caller chose an encoding that cannot hold the text; pane re-configures such streams to
+                # UTF-8 today, but the property does not promise that
+                self.count('caller_encoding_cannot_hold_text')
+                return
             raise Violation('unexpected_exception',
                             f"write_{fmt} of a representable value raised {type(raised).__name__}: {mask(str(raised))[:200]}")
         # acknowledged: the sink must now hold the value
@@ -537,24 +543,35 @@ class Exec:
         return self.path_arg(sink.name, 'str') in self.fs.files
 
     def _sink_text(self, sink, op):
-        """What the sink holds, as the caller would find it (bytes decoded as UTF-8 for paths)."""
+        """What the sink holds, as the caller would find it: a caller stream is read back through the
+        caller's own stream object (its encoding is the caller's business); a path is decoded as UTF-8."""
         if sink.obj is not None:
             if isinstance(sink.obj, io.StringIO):
                 return sink.obj.getvalue()
             try:
                 sink.obj.flush()
+                sink.obj.seek(0)
+                text = sink.obj.read()
+                sink.obj.seek(0, 2)
+                return text
             except Exception as e:
-                raise Violation('caller_stream_unusable', f"flush of caller stream failed after write: {e!r}")
-            raw = bytes(sink.raw.data)
-        elif self.real:
-            with open(self.path_arg(sink.name, 'str'), 'rb') as f:
-                raw = f.read()
+                raise Violation('caller_stream_unusable', f"caller's stream {sink.name} cannot be flushed/read back after an "
+                                                          f"acknowledged write: {type(e).__name__}: {mask(str(e))[:120]}")
+        if self.real:
+            try:
+                with open(self.path_arg(sink.name, 'str'), 'rb') as f:
+                    raw = f.read()
+            except FileNotFoundError:
+                raise Violation('ack_write_unreadable', f"path {sink.name} does not exist after an acknowledged write")
         else:
-            raw = bytes(self.fs.files.get(self.path_arg(sink.name, 'str'), b''))
+            key = self.path_arg(sink.name, 'str')
+            if key not in self.fs.files:
+                raise Violation('ack_write_unreadable', f"path {sink.name} does not exist after an acknowledged write")
+            raw = bytes(self.fs.files[key])
         try:
             return raw.decode('utf-8')
         except UnicodeDecodeError as e:
-            raise Violation('ack_write_unreadable', f"sink {sink.name} does not hold UTF-8 after an acknowledged write: {e}")
+            raise Violation('ack_write_unreadable', f"path {sink.name} does not hold UTF-8 after an acknowledged write: {e}")
 
     def _check_text(self, content, docs, what):
         pane = self.pane
